@@ -395,6 +395,49 @@ class Arbitrage(Harness):
                       "C20.arb-component-leg", "component leg is not v on the opposite side at its market price")
 
 
+class TestAgentOrders(Harness):
+    name = "TestAgentOrders"
+    title = "real TestAgent.submit_orders: well-formed orders under its own id for accessible markets only"
+    what_symbolic = "the agent's uniform draws (price offset, buy/sell/none decision); volumes and lifetimes are the stub's randint values"
+    nontrivial_event = "an order was emitted"
+    bounds = {"quick": "3 markets of which 1 or 2 accessible", "thorough": "same"}
+    reach = ("nontrivial", "no-order")
+    agreement_runs = 4
+
+    def cases(self, tier):
+        return [{"acc": [0]}, {"acc": [0, 2]}, {"acc": [1]}]
+
+    def run(self, g, case):
+        from pams.agents import TestAgent
+        sim = Simulator(prng=random.Random(0))
+        ms = []
+        for i in range(3):
+            m, st = _market(sim, i, f"M{i}", price=100 * (i + 1))
+            m.setup(st)
+            sim._add_market(m)
+            m._update_time(next_fundamental_price=100.0)
+            ms.append(m)
+
+        class P(SymRandom):
+            def randint(self_inner, a, b):
+                self_inner.n += 1
+                return g.int(f"ri{self_inner.n}", a, b)
+        a = TestAgent(agent_id=4, prng=P(g, "ta"), simulator=sim, name="t")
+        a.setup({"cashAmount": 1000, "assetVolume": 10}, accessible_markets_ids=case["acc"])
+        orders = a.submit_orders(markets=ms)
+        g.require(len(orders) <= len(case["acc"]), "C20.test-agent-too-many-orders")
+        if not orders:
+            g.note("no-order")
+        for o in orders:
+            g.note("nontrivial")
+            _wellformed(g, o, a, case["acc"])
+            g.require(o.kind == LIMIT_ORDER and o.price is not None, "C20.test-agent-order-shape")
+
+
+class C20_TestAgentOrders(TestAgentOrders):
+    pass
+
+
 class C20_FCN(FCN):
     pass
 
